@@ -363,7 +363,7 @@ def run(chk: Check) -> int:
     check_fn = f"(check xi {C.bool_(repaired)})"
     legal_fn = f"(is_legal xi {C.bool_(repaired)})"
     # balance the shards: biggest cases dealt round-robin over 16 shards (padded with empty cases)
-    nsh = 16
+    nsh = max(16, (len(cases) + 19) // 20)      # <= 20 cases per coqc process (memory)
     shard = max(1, (len(cases) + nsh - 1) // nsh)
     dummy = C.tup(C.flt(0.0), C.flt(1.0), C.nat(1000), "[]")
     order = sorted(range(len(cases)), key=lambda i: -len(cases[i]))
